@@ -486,6 +486,8 @@ package tor
 //@   modifies t.inFlight[_]
 //@   ensures  [dec] !have && old(t.inFlight[index]) > 0 ==> t.inFlight[index] == old(t.inFlight[index]) - 1
 //@   ensures  [inc] have && old(t.inFlight[index]) < 255 ==> t.inFlight[index] == old(t.inFlight[index]) + 1
+//@   ensures  [floor] !have && old(t.inFlight[index]) == 0 ==> t.inFlight[index] == 0
+//@   ensures  [ceil]  have && old(t.inFlight[index]) == 255 ==> t.inFlight[index] == 255
 //@   ensures  [others] forall k int :: 0 <= k && k < len(t.inFlight) && k != int(index) ==> t.inFlight[k] == old(t.inFlight[k])
 //@   props    C09
 
@@ -518,5 +520,7 @@ package tor
 //@   ensures  [len]  len(t.available) == max(old(len(t.available)), int(index)+1)
 //@   ensures  [inc]  have && (int(index) >= old(len(t.available)) || old(t.available[index]) < 65535) ==> int(t.available[index]) == (int(index) < old(len(t.available)) ? int(old(t.available[index])) : 0) + 1
 //@   ensures  [dec]  !have && int(index) < old(len(t.available)) && old(t.available[index]) > 0 ==> t.available[index] == old(t.available[index]) - 1
+//@   ensures  [floor] !have && int(index) < old(len(t.available)) && old(t.available[index]) == 0 ==> t.available[index] == 0
+//@   ensures  [ceil]  have && int(index) < old(len(t.available)) && old(t.available[index]) == 65535 ==> t.available[index] == 65535
 //@   ensures  [others] forall k int :: 0 <= k && k < old(len(t.available)) && k != int(index) ==> t.available[k] == old(t.available[k])
 //@   props    C09
